@@ -284,32 +284,127 @@ def summll(idx: ProgramIndex, rep: Report):
     S = idx.find_class("SumMarginalLogLikelihood")
     fi = idx.method(S, "forward", own=True)
     probs = []
-    sums = [c for c in calls_in(fi.node) if isinstance(c.func, ast.Name) and c.func.id == "sum" and c.args and isinstance(c.args[0], (ast.GeneratorExp, ast.ListComp))]
-    if len(sums) < 1:
-        probs.append("no sum over member MLLs")
-    for sc in sums:
-        g = sc.args[0].generators[0]
+    nsums = 0
+
+    def member_comp(comp) -> List[str]:
+        """problems of a comprehension `mll(output, target[, *iparams]) for mll, output, target[, iparams] in zip(self.mlls, outputs, targets[, params])`"""
+        out = []
+        g = comp.generators[0]
         it = g.iter
+        if len(comp.generators) != 1 or g.ifs:
+            out.append("the comprehension over the members filters or nests")
         if not (isinstance(it, ast.Call) and (chain(it.func) or "").split(".")[-1] in ("zip", "length_safe_zip") and it.args and chain(it.args[0]) == "self.mlls"):
-            probs.append("the members are not zipped in order with outputs and targets")
-            continue
+            return out + ["the members are not zipped in order with outputs and targets"]
         names = [e.id for e in g.target.elts] if isinstance(g.target, ast.Tuple) else []
-        elt = sc.args[0].elt
+        elt = comp.elt
         if not (isinstance(elt, ast.Call) and isinstance(elt.func, ast.Name) and names and elt.func.id == names[0]):
-            probs.append("the summand is not the member MLL")
-            continue
+            return out + ["the summand is not the member MLL"]
         pos = [a.id if isinstance(a, ast.Name) else (a.value.id if isinstance(a, ast.Starred) and isinstance(a.value, ast.Name) else None) for a in elt.args]
         if pos != names[1:]:
-            probs.append("member MLL is called with %s, expected its own zipped %s" % (pos, names[1:]))
+            out.append("member MLL is called with %s, expected its own zipped %s" % (pos, names[1:]))
         zip_args = [src(a) for a in it.args[1:]]
         if zip_args[:2] != [fi.params[1], fi.params[2]]:
-            probs.append("zip operands %s are not (outputs, targets)" % zip_args)
-    rets = [r.value for r in ast.walk(fi.node) if isinstance(r, ast.Return) and r.value is not None]
-    for r in rets:
-        t = src(r)
-        if not (isinstance(r, ast.Call) and isinstance(r.func, ast.Attribute) and r.func.attr in ("div", "div_") and src(r.args[0]) == "len(self.mlls)") and not (isinstance(r, ast.BinOp) and isinstance(r.op, ast.Div) and src(r.right) == "len(self.mlls)"):
-            probs.append("the sum is not divided by len(self.mlls): `%s`" % t)
-    rep.add("C02-3", "%s:SumMarginalLogLikelihood.forward" % S.module.name, fi.where, not probs, "sum_i mll_i(output_i, target_i[, *params_i]) / len(mlls)" if not probs else "; ".join(sorted(set(probs))), {"sums": len(sums)})
+            out.append("zip operands %s are not (outputs, targets)" % zip_args)
+        return out
+
+    def is_len_members(e, env) -> bool:
+        if isinstance(e, ast.Call) and isinstance(e.func, ast.Name) and e.func.id == "len" and len(e.args) == 1:
+            a = e.args[0]
+            if chain(a) == "self.mlls":
+                return True
+            if isinstance(a, ast.Name) and isinstance(env.get(a.id), (ast.ListComp,)):
+                return True
+        return False
+
+    def dim0(call: ast.Call) -> Optional[bool]:
+        """True: reduces over axis 0 only; False: reduces over everything (no dim); None: something else"""
+        d = None
+        if call.args:
+            d = call.args[0]
+        for k in call.keywords:
+            if k.arg in ("dim", "axis"):
+                d = k.value
+        if d is None:
+            return False
+        return True if isinstance(d, ast.Constant) and d.value == 0 else None
+
+    def agg(e, env, depth=0):
+        """-> (comprehension, divided_by_len: bool, problems) or None when e is not an aggregate over the members"""
+        if depth > 6:
+            return None
+        if isinstance(e, ast.Name) and e.id in env:
+            return agg(env[e.id], env, depth + 1)
+        if isinstance(e, (ast.ListComp, ast.GeneratorExp)):
+            return ("list", e, False, [])
+        if isinstance(e, ast.Call) and isinstance(e.func, ast.Name) and e.func.id == "sum" and len(e.args) == 1:
+            a = agg(e.args[0], env, depth + 1)
+            if a and a[0] == "list":
+                return ("value", a[1], False, a[3])
+            return None
+        if isinstance(e, ast.Call) and chain(e.func) == "torch.stack" and e.args:
+            a = agg(e.args[0], env, depth + 1)
+            axis_ok = len(e.args) == 1 and not e.keywords or (len(e.args) == 2 and isinstance(e.args[1], ast.Constant) and e.args[1].value == 0) or any(k.arg == "dim" and isinstance(k.value, ast.Constant) and k.value.value == 0 for k in e.keywords)
+            if a and a[0] == "list":
+                return ("stack", a[1], False, a[3] + ([] if axis_ok else ["members are stacked along an axis other than 0"]))
+            return None
+        if isinstance(e, ast.Call) and isinstance(e.func, ast.Attribute) and e.func.attr in ("sum", "mean"):
+            a = agg(e.func.value, env, depth + 1)
+            if a and a[0] == "stack":
+                d = dim0(e)
+                pr = list(a[3])
+                if d is False:
+                    pr.append("`%s` reduces over every axis of the stacked member MLLs, i.e. over the members *and* their batch dimensions: batch element b of the result is no longer the mean of the members' b-th values" % src(e)[:60])
+                elif d is None:
+                    pr.append("`%s` does not reduce over the member axis 0" % src(e)[:60])
+                return ("value", a[1], e.func.attr == "mean", pr)
+            return None
+        if isinstance(e, ast.Call) and isinstance(e.func, ast.Attribute) and e.func.attr in ("div", "div_", "true_divide") and len(e.args) == 1:
+            a = agg(e.func.value, env, depth + 1)
+            if a and a[0] == "value":
+                if is_len_members(e.args[0], env):
+                    return ("value", a[1], True, a[3] + (["divided by the number of members twice"] if a[2] else []))
+                return ("value", a[1], a[2], a[3] + ["divided by `%s`, not by the number of members" % src(e.args[0])[:40]])
+            return None
+        if isinstance(e, ast.BinOp) and isinstance(e.op, ast.Div):
+            a = agg(e.left, env, depth + 1)
+            if a and a[0] == "value":
+                if is_len_members(e.right, env):
+                    return ("value", a[1], True, a[3] + (["divided by the number of members twice"] if a[2] else []))
+                return ("value", a[1], a[2], a[3] + ["divided by `%s`, not by the number of members" % src(e.right)[:40]])
+            return None
+        return None
+
+    nret = 0
+    for p in enumerate_paths(body_without_docstring(fi.node)):
+        if p.outcome != RETURN:
+            continue
+        env: Dict[str, ast.AST] = {}
+        ret = None
+        for st in p.steps:
+            if st.kind != "stmt":
+                continue
+            n = st.node
+            if isinstance(n, ast.Assign) and len(n.targets) == 1 and isinstance(n.targets[0], ast.Name):
+                env[n.targets[0].id] = n.value
+            elif isinstance(n, ast.AugAssign) and isinstance(n.target, ast.Name) and isinstance(n.op, ast.Div):
+                env[n.target.id] = ast.BinOp(left=env.get(n.target.id, n.target), op=ast.Div(), right=n.value)
+            elif isinstance(n, ast.Return):
+                ret = n.value
+        if ret is None:
+            continue
+        nret += 1
+        a = agg(ret, env)
+        if a is None or a[0] != "value":
+            probs.append("the returned value `%s` is not an aggregate over the member MLLs" % src(ret)[:60])
+            continue
+        nsums += 1
+        probs += a[3]
+        probs += member_comp(a[1])
+        if not a[2]:
+            probs.append("the sum is not divided by len(self.mlls): `%s`" % src(ret)[:60])
+    if nret == 0:
+        probs.append("no returning path")
+    rep.add("C02-3", "%s:SumMarginalLogLikelihood.forward" % S.module.name, fi.where, not probs, "on every returning path: sum_i mll_i(output_i, target_i[, *params_i]) over the member axis only, / len(mlls)" if not probs else "; ".join(sorted(set(probs))), {"sums": nsums})
 
 
 def aliasing(idx: ProgramIndex, rep: Report):
